@@ -167,8 +167,8 @@ namespace sim
 			const time_type& expiry_time);
 		high_resolution_timer(io_context& io_context,
 			const duration_type& expiry_time);
-		high_resolution_timer(high_resolution_timer&&) noexcept = default;
-		high_resolution_timer& operator=(high_resolution_timer&&) noexcept = default;
+		high_resolution_timer(high_resolution_timer&&) noexcept;
+		high_resolution_timer& operator=(high_resolution_timer&&) noexcept;
 		~high_resolution_timer();
 
 		std::size_t cancel();
